@@ -113,8 +113,9 @@ META.update({
         note="expand functions (int() of substrings), _process_vlandb / vlan_diff, chunking: bounded only; sorted(set()) axiom assumed",
     ),
     "C16": dict(
-        technique="effect obligations inferred from the real source of all 49 shipped %logic functions (does not read the UNCHANGED bucket), proved contracts of strip_unchanged / mark_unchanged / the common logic functions + lemma unchanged_bucket_is_not_read; " + _B + " comparing both front ends",
-        text="exploration + proved links: 46 of 49 shipped logic functions are proved (by effect inference over their real source, interprocedural) "
+        technique="contract-based deductive verification of both front ends (_diff_and_patch, _read_old_new_diff_patch) as the same composition of the pipeline stages + lemma front_ends_agree; effect obligations inferred from the real source of all 49 shipped %logic functions (does not read the UNCHANGED bucket), proved contracts of make_diff / make_pre / strip_unchanged / the common logic functions; " + _B + " comparing both front ends",
+        text="exploration + proved links: both front ends are proved to build the patch from the full diff through the same stages and to "
+             "strip unchanged rows only for display (relative to assumed stage contracts; patch_from_pre is not under contract); 46 of 49 shipped logic functions are proved (by effect inference over their real source, interprocedural) "
              "not to read diff[Op.UNCHANGED] or the UNCHANGED buckets of rule_pre/root_pre; strip_unchanged is proved; the common logic "
              "functions are proved independent of the unchanged bucket. The two real front ends are compared on the shipped corpus, its cross "
              "products and random trees. 1 fixed (file mode stripped before make_pre), 3 known findings (logic functions that read UNCHANGED, "
